@@ -316,7 +316,7 @@ class RangeAnalysis:
     entries: blocks at which x ranges over its whole domain `dom` (an ISet).
     env: optional {local: AV} (used when analysing a callee in the caller's x)."""
 
-    def __init__(self, facts, body, xkeys, xbits, dom, entries=(0,), env=None, depth=0, N=None, stop=()):
+    def __init__(self, facts, body, xkeys, xbits, dom, entries=(0,), env=None, depth=0, N=None, stop=(), opaque_ok=False):
         self.facts = facts
         self.body = body
         self.xkeys = set(xkeys)
@@ -327,6 +327,8 @@ class RangeAnalysis:
         self.env = env or {}
         self.depth = depth
         self.stop = set(stop)
+        self.opaque_ok = opaque_ok      # x-dependent conditions we cannot interpret become nondeterministic branches
+        self.opaque_x = []
         self.res = Resolver(body)
         self.ptrmap = getattr(facts, 'ptrmap', None)    # {static name: index} for finite pointer domains (C20)
         self.reach = {}
@@ -660,7 +662,9 @@ class RangeAnalysis:
             v = self.ev(cond)
             if v.all_top():
                 # does the condition mention x at all?
-                if any(sub in self.xkeys for sub in walk(cond)) or self.mentions_env(cond):
+                if self.opaque_ok and (any(sub in self.xkeys for sub in walk(cond)) or self.mentions_env(cond)):
+                    self.opaque_x.append(b)
+                elif any(sub in self.xkeys for sub in walk(cond)) or self.mentions_env(cond):
                     self.mixed.append((b, 'condition depends on x beyond the recognised operators: %s' % expr_str(cond, body)[:200]))
                 else:
                     self.opaque.append(b)
@@ -676,7 +680,10 @@ class RangeAnalysis:
                 out.append((tgt, s))
             out.append((t['otherwise'], rest))
             if unknown:
-                self.mixed.append((b, 'condition undecided for x in %r: %s' % (unknown, expr_str(cond, body)[:200])))
+                if self.opaque_ok:
+                    self.opaque_x.append(b)
+                else:
+                    self.mixed.append((b, 'condition undecided for x in %r: %s' % (unknown, expr_str(cond, body)[:200])))
                 out = [(s, st | unknown) for s, st in out]
             return out
         if 'assert' in t:
